@@ -129,8 +129,6 @@ Proof.
   intros k Hk. rewrite (set_nth_opt_nth d l i x r E k). symmetry. apply H. rewrite <- (set_nth_opt_length _ _ _ _ E). exact Hk.
 Qed.
 
-Definition es_mem_of (sh : list Z) (order : list nat) (es : list (list cell)) : list (list cell) :=
-  map (fun p => nth (Z.to_nat (logical_of_mem sh order p)) es []) (mem_positions sh).
 
 Lemma lom_injective_at shape sh order c k : shape_ok shape sh = true -> perm_ok order (length shape) = true ->
   0 <= c < prod sh -> 0 <= k < prod sh -> logical_of_mem sh order k = c -> k = Perm.mem_pos sh order (unpos sh c).
